@@ -236,6 +236,50 @@ def r04_7(run, model):
     run.floor("guarded index sites in scanners", n, 10)
 
 
+def fuel_limited_methods(model):
+    """Parser methods whose answer depends on the stuck-parser fuel (peek/nth read it; at, at_any, eat, expect … call those)"""
+    PARSER = "crates/parser/src/parser.rs"
+    meths = {g.name: g for g in model.fns(PARSER) if g.body is not None and g.impl == "Parser"}
+    reads = {n_ for n_, g in meths.items() if n_ not in ("advance", "new") and any(x["k"] == "Field" and x.get("member") == "fuel" for x in S.walk(g.body))}
+    changed = True
+    while changed:
+        changed = False
+        for n_, g in meths.items():
+            if n_ in reads or n_ in ("advance", "new"):
+                continue
+            if any(c["k"] == "MethodCall" and c["method"] in reads and S.is_path(c["recv"], "self") for c in S.walk(g.body)):
+                reads.add(n_)
+                changed = True
+    return reads
+
+
+def r04_10(run, model, an):
+    run.rule("R04.10", "look-ahead does not spend the stuck-parser fuel: a loop that inspects tokens without consuming any (its own cursor "
+                       "moves, the parser's does not) reads them through a fuel-free accessor; otherwise the number of observations between "
+                       "two advances is unbounded, peek() starts answering Eof for tokens that exist, and a guarded `assert!(p.at(K))` fails")
+    if an is None:
+        raise AnalysisIncomplete("parser analyzer not available")
+    reads = fuel_limited_methods(model)
+    run.floor("positive control: fuel-limited Parser methods", len(reads), 4)
+    n = 0
+    files = [f for f in PARSER_FILES if f in model.src_files()]
+    for rel in files:
+        for f in model.fns(rel):
+            if f.body is None or f.name not in an.fns:
+                continue
+            for loop in S.find(f.body, "While", "Loop"):
+                if loop["k"] == "While" and loop["cond"]["k"] == "Let":
+                    continue
+                if an.may_advance(f, loop["body"]):
+                    continue
+                n += 1
+                spent = sorted({c["method"] for c in S.walk(loop) if c["k"] == "MethodCall" and c["method"] in reads})
+                run.ob("R04.10", f"{f.name}|look-ahead loop is fuel-free", not spent, site(rel, loop["sp"]),
+                       f"fuel-limited observations inside the look-ahead loop: {spent or 'none'}",
+                       witness="`impl a::a::…::a for T {}` with 127 segments: the look-ahead of impl_has_trait drains the fuel, the following parse_path sees Eof and its debug_assert panics (debug build); longer paths are rejected with `parser did not consume input`")
+    run.floor("look-ahead loops", n, 1)
+
+
 def r04_8(run, model):
     run.rule("R04.8", "a link input that lacks a dependency named in some unit's `deps` is an error before the back end runs: link_cores (or a "
                       "function it calls before mono) looks every dependency up and returns Err when it is absent")
@@ -297,6 +341,10 @@ def run(run, model):
     run.try_rule(r04_5, model, mir)
     run.try_rule(r04_7, model)
     run.try_rule(r04_8, model)
+    run.try_rule(r04_10, model, an)
+    from rules import c08
+    run.rule("R04.11", "`go f` on a plain function value does not panic in the back end (shared with C08 R08.7)")
+    run.try_rule(c08.r08_7, model)
     from rules import c07
     run.rule("R04.9", "specialisation neither panics on a supported type former nor recurses without bound: shared with C07 R07.1 / R07.5")
     run.try_rule(c07.r07_1, model)
